@@ -103,6 +103,8 @@ def nat_lookahead(h):
             'dump_to_path': lambda: dump_to_path(os.path.join(d, 'o%d' % h.rng.randint(0, 10 ** 6))),
             'stream': lambda: stream(os.path.join(d, 's%d' % h.rng.randint(0, 10 ** 6), 'x.ndjson')),
             'checkpoint': lambda: checkpoint('c%d' % h.rng.randint(0, 10 ** 6), checkpoint_path=d),
+            'checkpoint-resources': lambda: checkpoint('c%d' % h.rng.randint(0, 10 ** 6), checkpoint_path=d,
+                                                       resources=h.rng.choice(['res_1', ['res_1'], '.*', 0])),
             'validate': lambda: validate(),
             'set_type': lambda: set_type('a', type='integer'),
             'filter_rows': lambda: filter_rows(lambda r: r['a'] % 2 == 0),
@@ -220,7 +222,7 @@ def nat_dump_stats(h):
         hashpath = h.rng.random() < 0.4
         pretty = h.rng.random() < 0.5
         counters = {}
-        ckind = h.rng.choice(['default', 'renamed', 'nested', 'disabled', 'no-bytes'])
+        ckind = h.rng.choice(['default', 'renamed', 'nested', 'disabled', 'no-bytes', 'no-hash', 'no-hash'])
         names = dict(rr='count_of_rows', rb='bytes', rh='hash', pr='count_of_rows', pb='bytes', ph='hash')
         if ckind == 'renamed':
             names = dict(rr='rows', rb='size', rh='md5', pr='total_rows', pb='total_size', ph='digest')
@@ -233,6 +235,10 @@ def nat_dump_stats(h):
             counters = {'resource-rowcount': None, 'datapackage-hash': None}
         elif ckind == 'no-bytes':
             counters = {'resource-bytes': None, 'datapackage-bytes': None}
+        elif ckind == 'no-hash':
+            # sizes and row counts are recorded although no file hash is asked for (the size must not depend on the hashing pass)
+            counters = {'resource-hash': None}
+            hashpath = False
         d = tempfile.mkdtemp(prefix='c09_')
         try:
             opts = dict(format=fmt, add_filehash_to_path=hashpath, pretty_descriptor=pretty, counters=counters)
@@ -262,7 +268,10 @@ def nat_dump_stats(h):
                 raw = read(p)
                 if ckind != 'no-bytes':
                     h.check(get(rdesc, names['rb']) == len(raw), 'dump:bytes', cfg, len(raw), get(rdesc, names['rb']))
-                h.check(get(rdesc, names['rh']) == hashlib.md5(raw).hexdigest(), 'dump:hash', cfg, hashlib.md5(raw).hexdigest(), get(rdesc, names['rh']))
+                if ckind != 'no-hash':
+                    h.check(get(rdesc, names['rh']) == hashlib.md5(raw).hexdigest(), 'dump:hash', cfg, hashlib.md5(raw).hexdigest(), get(rdesc, names['rh']))
+                else:
+                    h.check(get(rdesc, 'hash') in (None, {}), 'dump:disabled-counter', cfg, 'absent', get(rdesc, 'hash'))
                 if ckind != 'disabled':
                     h.check(get(rdesc, names['rr']) == len(rows), 'dump:rowcount', cfg, len(rows), get(rdesc, names['rr']))
                 else:
@@ -282,7 +291,7 @@ def nat_dump_stats(h):
             got2 = h.run(lambda: run(os.path.join(d, 'b')))
             if got2[0] == 'ok':
                 dp2 = got2[1][0].descriptor
-                h.check([get(r, names['rh']) for r in dp2['resources']] == [get(r, names['rh']) for r in desc['resources']] and
+                h.check(ckind == 'no-hash' or [get(r, names['rh']) for r in dp2['resources']] == [get(r, names['rh']) for r in desc['resources']] and
                         got2[1][1].get('hash') == stats.get('hash'), 'dump:deterministic-hash', cfg, 'same hashes', None)
             # a second dump of OTHER data into the same place (the re-run of a pipeline): the descriptor found there afterwards
             # describes the second dump and agrees with its stats
@@ -296,8 +305,9 @@ def nat_dump_stats(h):
                     for rdesc, rows in zip(desc4['resources'], other):
                         pth = os.path.join(d, 'e', rdesc['path'])
                         raw = open(pth, 'rb').read() if os.path.exists(pth) else None
-                        ok4 = ok4 and raw is not None and get(rdesc, names['rh']) == hashlib.md5(raw).hexdigest() and \
-                            (ckind == 'disabled' or get(rdesc, names['rr']) == len(rows))
+                        ok4 = ok4 and raw is not None and (ckind == 'no-hash' or get(rdesc, names['rh']) == hashlib.md5(raw).hexdigest()) and \
+                            (ckind == 'disabled' or get(rdesc, names['rr']) == len(rows)) and \
+                            (ckind != 'no-hash' or get(rdesc, names['rb']) == len(raw))
                     ok4 = ok4 and (ckind == 'disabled' or get(desc4, names['ph']) == got4[1][1].get('hash'))
                     h.check(ok4, 'dump:second-dump-into-the-same-directory', cfg, 'descriptor describes the second dump',
                             [(r['path'], get(r, names['rr'])) for r in desc4['resources']])
